@@ -12,6 +12,7 @@ import Heathcliff.Proofs.Codec
 import Heathcliff.Proofs.Sink
 import Heathcliff.Proofs.SinkI
 import Heathcliff.Model.CodecGen
+import Heathcliff.Proofs.GenSerP
 namespace HC.C15
 open HC.Codec
 
@@ -161,5 +162,38 @@ example : u64C.dec ((u64C.enc 578437695752307201).take 5) = .error (.eof .u64) :
 example : (vecC u64C).valid [1, 2, 3] := by
   refine ⟨(by show (3 : Nat) < 256 ^ 8; decide), rfl, ?_⟩
   exact ⟨(by show (1 : Nat) < 256 ^ 8; decide), (by show (2 : Nat) < 256 ^ 8; decide), (by show (3 : Nat) < 256 ^ 8; decide), trivial⟩
+
+
+/-! ### translator phase 4i: the serializer SOURCE itself (src/serialize.rs regenerated into Gen/SerFns.lean) under I/O faults -/
+
+/-- the generated writers run on a sink of the family ARE the model's `serialize` with every scalar writer in `write_all` mode — the
+    write primitive is read off the translated scalar impl bodies (a `stream.write(..)` there would be translated as such and break this) -/
+theorem gen_source_writers_are_model_serialize :
+    type_of% @HC.GS.c15g_source_writers_are_model_serialize := @HC.GS.c15g_source_writers_are_model_serialize
+
+/-- THE PROPERTY FOR THE SOURCE: generated `EncryptionParameters` / `Plaintext` (= `SecretKey`) / `Vec<u64>` / limited writers on every
+    faulty sink (any limits, any failure point, any prior state): `Ok n` with `n = |enc x|` and exactly `enc x` appended, or the STREAM's
+    error (never a panic) with a prefix appended -/
+theorem gen_source_writers_fail_cleanly : type_of% @HC.GS.c15g_source_writers_fail_cleanly := @HC.GS.c15g_source_writers_fail_cleanly
+
+/-- generated readers on every strict prefix of a valid encoding: `Err(UnexpectedEof)` -/
+theorem gen_source_readers_truncation : type_of% @HC.GS.c15g_source_readers_truncation := @HC.GS.c15g_source_readers_truncation
+
+/-- not an I/O fault, recorded: `write_u64_limited` with a value that does not fit writes the truncated bytes, then panics -/
+theorem gen_limited_writer_panics_after_writing :
+    type_of% @HC.GS.c15g_limited_writer_panics_after_writing := @HC.GS.c15g_limited_writer_panics_after_writing
+
+/-- the two routes agree: the mode the pattern table extracts (`genWMode`) is the mode the translated bodies use -/
+theorem gen_source_mode_is_table_mode (p : Params) (hp : p.scheme < 256) (s : Sink) :
+    HC.GenS.params_serialize HC.GS.sinkStream p s = HC.GS.liftIO (serialize genWMode (paramsC.chunks p) s) := by
+  have : genWMode = fun _ => WMode.writeAll := funext gen_writers_use_write_all
+  rw [this]; exact (HC.GS.c15g_source_writers_are_model_serialize s).2.2.2.1 p hp
+
+/-- non-vacuity: the generated `u64` writer on a stream taking 3 bytes per call delivers all 8 bytes; with the second call failing it
+    reports the stream's error with 3 bytes on the wire -/
+example : HC.GenS.u64_serialize HC.GS.sinkStream 578437695752307201 ⟨[3], none, 0, []⟩
+    = (.ok 8, ⟨[3], none, 3, [1, 2, 3, 4, 5, 6, 7, 8]⟩) := by rfl
+example : HC.GenS.u64_serialize HC.GS.sinkStream 578437695752307201 ⟨[3], some 1, 0, []⟩
+    = (.error (.io .fault), ⟨[3], some 1, 2, [1, 2, 3]⟩) := by rfl
 
 end HC.C15
